@@ -80,8 +80,10 @@ type instance interface {
 	facts() Facts
 	state() string // replica: Status() state; controller: summary used only for reporting
 	probes() []probe
-	readProbe() (applicable bool, err error)  // does not change the state
-	writeProbe() (applicable bool, err error) // changes the state: run at the end of an instance's life
+	readProbe() (applicable bool, err error) // does not change the state
+	// writeProbe changes the state: run at the end of an instance's life.  transient: the first attempt failed, a later
+	// one (after the failure had been digested by the controller) was served - recorded, not a violation
+	writeProbe() (applicable bool, err error, transient bool)
 	destroy(poisoned bool)
 }
 
@@ -135,8 +137,23 @@ func setup() {
 		// the E-B cluster installs the in-process http.DefaultTransport and its own logrus hooks on first use; build
 		// one throw-away cluster now so that our logging set-up is the one that stays
 		eb.NewCluster(&eb.Cfg{RF: 3, N: 4, Drain: true}, scratch).Destroy()
+		http.DefaultTransport = eeTransport{http.DefaultTransport}
 		resetLogging()
 	})
+}
+
+// eeTransport sits in front of E-B's in-process transport.  With model replica nodes there is no sync agent (port
+// 9504: a process launcher around ssync/sfold that needs real files): such a request is refused like a connection to
+// a port nobody listens on.  Everything else - and everything when the cluster has real nodes - goes to E-B's transport.
+type eeTransport struct{ base http.RoundTripper }
+
+var realNodes bool
+
+func (t eeTransport) RoundTrip(req *http.Request) (*http.Response, error) {
+	if !realNodes && strings.HasSuffix(req.URL.Host, ":9504") {
+		return nil, fmt.Errorf("dial tcp %s: connect: connection refused (no sync agent behind a model node)", req.URL.Host)
+	}
+	return t.base.RoundTrip(req)
 }
 
 // Cleanup removes the worker's scratch directory.
@@ -314,7 +331,12 @@ func (x *rInst) readProbe() (bool, error) {
 	return true, nil
 }
 
-func (x *rInst) writeProbe() (bool, error) {
+func (x *rInst) writeProbe() (bool, error, bool) {
+	ok, err := x.writeProbe1()
+	return ok, err, false
+}
+
+func (x *rInst) writeProbe1() (bool, error) {
 	r := x.srv.Replica()
 	if r == nil {
 		return false, nil
@@ -472,6 +494,7 @@ func newControllerInst(class string, real bool) (*cInst, error) {
 	if !ok {
 		return nil, fmt.Errorf("unknown controller state class %q", class)
 	}
+	realNodes = real
 	cfg := &eb.Cfg{RF: 3, N: 4, Drain: true, Real: real}
 	instSeq++
 	x := &cInst{class: class, cl: eb.NewCluster(cfg, filepath.Join(scratch, fmt.Sprintf("c%d", instSeq)))}
@@ -575,7 +598,25 @@ func (x *cInst) probes() []probe {
 
 func (x *cInst) readProbe() (bool, error) { return false, nil } // a controller read moves the round-robin cursor
 
-func (x *cInst) writeProbe() (bool, error) {
+func (x *cInst) writeProbe() (bool, error, bool) {
+	var first error
+	for attempt := 0; attempt < 3; attempt++ {
+		ok, err := x.writeProbe1()
+		if !ok {
+			return attempt > 0, first, false // the state no longer allows writes (e.g. the failure made the volume read-only)
+		}
+		if err == nil {
+			return true, nil, attempt > 0
+		}
+		if first == nil {
+			first = err
+		}
+		x.quiesce() // let the controller digest the failure (ERR marking, monitor wake-ups)
+	}
+	return true, first, false
+}
+
+func (x *cInst) writeProbe1() (bool, error) {
 	v := x.cl.View()
 	rw, _, _ := modeCounts(v)
 	if v.ReadOnly || rw < 2 || len(v.Backends) == 0 {
